@@ -30,9 +30,9 @@ func TestVerif(t *testing.T) {
 	queue.VerifSetDontRecover(false)
 	mlog.DefaultLogger.Out = mlog.NopOutput{}
 
-	nWire := r.N(100, 3400)    // x 30 chains
-	nQueue := r.N(600, 20000)  // 1..4 recipients x up to 3 attempts
-	nLaw := r.N(20, 400)       // x 500 chains
+	nWire := r.N(100, 10000)  // x 30 chains
+	nQueue := r.N(600, 60000) // 1..4 recipients x up to 3 attempts
+	nLaw := r.N(20, 1500)     // x 500 chains
 	for i := 0; i < nWire; i++ {
 		r.Run(wireBase+i, fmt.Sprintf("wire-%d", i), func(c *rep.Case) { runWireCase(t, r, c, wireBase+i) })
 	}
